@@ -20,9 +20,18 @@
   pack     <S|D>:<count>:<zipped 0|1>:<o|s|d<k>>:<payload length>:<hash>:<ids>
            (gzip is the identity here: length and hash are those of the uncompressed payload)
   state    buf=<ids> count=<n> len=<n> first=<t> queue=<ids> set=<w>,<q>,<b>,<z> stopped=<0|1>
+
+  H histories may contain  k:<n>  SetTcpClient(client n)  (Golib.ZipSender.Client); every pack of an H answer
+  ends in  @<n>  = the client whose SendFlush received it (0 = the client given at construction).
+
+    W <pcode>,<oid>,<okind>,<onode>,<time> <status> <count> <hex|->   → hex of pack.WritePack of that ZipPack
+    U <hex>   → pack.ReadPack of the bytes: <pcode>,<oid>,<okind>,<onode>,<time> <status> <count> <hex|-> rest=<n> | none
+                (Golib.ZipSender.Wire: regenerated ZipPack layouts)
 -/
 import Golib.ZipSender.Model
 import Golib.ZipSender.Loop
+import Golib.ZipSender.Client
+import Golib.ZipSender.Wire
 import Driver.Common
 
 open ZipSender Drv
@@ -139,14 +148,45 @@ def actWeight : Act DRec → Nat
 def showPC : PC → String
   | .top => "top" | .polling n => s!"poll@{n}" | .exited => "exited"
 
+def parseCOp (s : String) : Option (CIn DRec) :=
+  if s.startsWith "k:" then (parseNat (s.drop 2).toString).map .setClient
+  else (parseOp s).map .op
+
+def copWeight : CIn DRec → Nat
+  | .op i => opWeight i
+  | .setClient _ => 0
+
 def answerH (v st ops fault : String) : String :=
-  match parseVariant v, parseSettings st, (if ops == "-" then some [] else (ops.splitOn ";").mapM parseOp) with
+  match parseVariant v, parseSettings st, (if ops == "-" then some [] else (ops.splitOn ";").mapM parseCOp) with
   | some v, some st, some ops =>
-    let n := ops.foldl (fun a o => a + opWeight o) 2
-    let (s, out) := run v dzip dcodec (init st (answersOf fault n)) ops
-    let ps := if out.isEmpty then "-" else ";".intercalate (out.map (fun x => showPack x.2))
+    let n := ops.foldl (fun a o => a + copWeight o) 2
+    let ((s, _), out) := crun v dzip dcodec (init st (answersOf fault n)) 0 ops
+    let ps := if out.isEmpty then "-" else ";".intercalate (out.map (fun x => s!"{showPack x.pack}@{x.dest}"))
     s!"{ps} | {showState s}"
   | _, _, _ => "bad-op"
+
+def parseHdr (s : String) : Option Layout.Hdr :=
+  match s.splitOn "," with
+  | [a, b, c, d, e] => do
+    let a ← parseInt a; let b ← parseInt b; let c ← parseInt c; let d ← parseInt d; let e ← parseInt e
+    pure ⟨a, b, c, d, e⟩
+  | _ => none
+
+def hexOrDash (bs : Bytes) : String := if bs.isEmpty then "-" else hexOf bs
+
+def answerW (h st c recs : String) : String :=
+  match parseHdr h, parseInt st, parseInt c, (if recs == "-" then some [] else ofHex recs) with
+  | some h, some st, some c, some recs => hexOf (ZipSender.Wire.wire h st c recs)
+  | _, _, _, _ => "bad-op"
+
+def answerU (bytes : String) : String :=
+  match ofHex bytes with
+  | none => "bad-op"
+  | some bs =>
+    match ZipSender.Wire.unwire ZipSender.Wire.facZ bs with
+    | none => "none"
+    | some (rc, rest) =>
+      s!"{rc.hdr.pcode},{rc.hdr.oid},{rc.hdr.okind},{rc.hdr.onode},{rc.hdr.time} {rc.status} {rc.count} {hexOrDash rc.records} rest={rest.length}"
 
 def answerL (v st acts fault : String) : String :=
   match parseVariant v, parseSettings st, (if acts == "-" then some [] else (acts.splitOn ";").mapM parseAct) with
@@ -169,6 +209,8 @@ def answer (line : String) : String :=
     | none => "bad-op"
   | ["H", v, st, ops] => answerH v st ops ""
   | ["H", v, st, ops, fault] => answerH v st ops fault
+  | ["W", h, st, c, recs] => answerW h st c recs
+  | ["U", bytes] => answerU bytes
   | ["L", v, st, acts] => answerL v st acts ""
   | ["L", v, st, acts, fault] => answerL v st acts fault
   | _ => "bad-op"
